@@ -116,3 +116,102 @@ def usbit_to_sbit(o):
     """soft-bit value of a received octet: 127 - o, with 255 read as -127"""
     if isinstance(o, int): return -127 if o == 255 else 127 - o
     return ite(eq(o, 255), -127, 127 - o)
+
+
+# --------------------------------------------------------------------------- fake transceivers
+TSEQ = {   # 3GPP TS 45.002 training sequences (pinned; compared with gsm_shared.TrainingSeqGMSK at run time)
+    ('AB', 0): "01001011011111111001100110101010001111000", ('AB', 1): "01010100111110001000011000101111001001101",
+    ('AB', 2): "11101111001001110101011000001101101110111", ('AB', 4): "11001001110001001110000000001101010110010",
+    ('AB', 3): "10001000111010111011010000010000101100010", ('AB', 5): "01010000111111110101110101101100110010100",
+    ('AB', 6): "01011110011101011110110100010011000010111", ('AB', 7): "01000010110000011101001010111011100010000",
+    ('SB', 0): "1011100101100010000001000000111100101101010001010111011000011011",
+    ('SB', 1): "1110111001101011001010000011111011110100011111101100101100010101",
+    ('SB', 2): "1110110000110111010100010101101001111000000100000010001101001110",
+    ('SB', 3): "1011101000111101110101101111010010001011010000001000111010011000",
+    ('NB', 0): "00100101110000100010010111", ('NB', 1): "00101101110111100010110111", ('NB', 2): "01000011101110100100001110",
+    ('NB', 3): "01000111101101000100011110", ('NB', 4): "00011010111001000001101011", ('NB', 5): "01001110101100000100111010",
+    ('NB', 6): "10100111110110001010011111", ('NB', 7): "11101111000100101110111100",
+}
+TSEQ_POS = {'NB': 61, 'AB': 8, 'SB': 42}
+
+
+def mk_trx(ctx, T, name, base_port, ver=0, child_idx=0, clck_gen=None, pwr_meas=None, remote='127.0.0.1', child_mgt=True):
+    kw = dict(name=name, child_idx=child_idx, pwr_meas=pwr_meas, child_mgt=child_mgt)
+    if clck_gen is not None: kw['clck_gen'] = clck_gen
+    trx = T.fake_trx.FakeTRX('0.0.0.0', remote, base_port, **kw)
+    trx.data_if._hdr_ver = ver
+    return trx
+
+
+def datagrams(sock):
+    """list of raw octet lists sent on a fake socket"""
+    return [(raw_of(d) if not isinstance(d, (str, pysym.SymStr)) else d, r) for d, r in sock.sent]
+
+
+# --------------------------------------------------------------------------- TRXC helpers (both modes)
+def trxc_cmd(ctx, verb, *args, nul=True):
+    """datagram 'CMD <verb> <args...>\\0' with decimal renderings of (possibly symbolic) ints"""
+    if ctx.mode == 'conc' or not any(isinstance(a, core.SymInt) for a in args):
+        s = 'CMD ' + ' '.join([verb] + [str(int(a)) if not isinstance(a, str) else a for a in args]) + ('\0' if nul else '')
+        return s.encode()
+    ps = ['CMD ' + verb]
+    for a in args:
+        ps.append(' '); ps.append(pysym.Dec(a) if not isinstance(a, str) else a)
+    if nul: ps.append('\0')
+    return pysym.SymStr(ps, isbytes=True)
+
+
+def trxc_tokens(data):
+    """reply datagram -> (ends_with_nul, [tokens]); numeric tokens become int / SymInt"""
+    if isinstance(data, pysym.SymStr):
+        ps = list(data.pieces)
+        nul = bool(ps) and isinstance(ps[-1], str) and ps[-1].endswith('\0')
+        if nul: ps[-1] = ps[-1][:-1]
+        toks = pysym.SymStr(ps).split(' ')
+        out = []
+        for t in toks:
+            if isinstance(t, pysym.SymStr):
+                out.append(t.pieces[0].v if len(t.pieces) == 1 and isinstance(t.pieces[0], pysym.Dec) else t)
+            else:
+                out.append(_maybe_int(t))
+        return nul, out
+    if isinstance(data, pysym.SymBuf):
+        data = data.concrete()
+    if isinstance(data, (bytes, bytearray)): data = bytes(data).decode('latin1')
+    nul = data.endswith('\0')
+    if nul: data = data[:-1]
+    return nul, [_maybe_int(t) for t in data.split(' ')]
+
+
+def _maybe_int(t):
+    try:
+        v = int(t)
+        return v if str(v) == t else t
+    except ValueError:
+        return t
+
+
+def trxc_roundtrip(ctx, trx, dgram, remote=('127.0.0.1', 55555)):
+    """inject one control datagram, run the real handle_rx, return the list of reply datagrams [(tokens, nul, remote)]"""
+    sock = trx.ctrl_if.sock
+    n0 = len(sock.sent)
+    sock.inject(dgram, remote)
+    trx.ctrl_if.handle_rx()
+    out = []
+    for d, r in sock.sent[n0:]:
+        nul, toks = trxc_tokens(d)
+        out.append((toks, nul, r))
+    return out
+
+
+def check_rsp(ctx, name, replies, verb, status, args, extra=None, remote=('127.0.0.1', 55555)):
+    ctx.check(name + ':exactly-one-reply', len(replies) == 1, n=len(replies))
+    if len(replies) != 1: return None
+    toks, nul, r = replies[0]
+    ctx.check(name + ':to-sender', r == remote, got=r)
+    ctx.check(name + ':nul-terminated', nul)
+    want = ['RSP', verb, status] + list(args)
+    ctx.check(name + ':token-count', len(toks) == len(want) + (extra or 0), got=len(toks), want=len(want) + (extra or 0))
+    for i, (g, w) in enumerate(zip(toks, want)):
+        ctx.check('%s:token[%d]' % (name, i), eq(g, w) if not isinstance(w, str) else (g == w), got=repr(g), want=repr(w))
+    return toks[len(want):]
